@@ -60,7 +60,7 @@ TDOPT = [None, 'same-volume', 'other-volume', 'same-volume-existing']
 FALLBACK = [(False, None), (True, None), (False, '1'), (True, '1'), (True, '0'), (True, 'yes')]  # enabled only by the option AND the value 1
 
 
-FIRST = ['alone', 'after-a-file-of-the-home-volume', 'after-a-file-of-another-volume']
+FIRST = ['alone', 'after-a-file-of-the-home-volume', 'after-a-file-of-another-volume', 'uid-dir-left-by-an-earlier-run']
 
 
 def scenario(where, top, alt, hk, uid, tdo, fb, first=0):
@@ -115,8 +115,11 @@ def scenario(where, top, alt, hk, uid, tdo, fb, first=0):
     for mp in mounts:
         if (fdir == mp or fdir.startswith(mp.rstrip('/') + '/')) and len(mp) > len(fvol):
             fvol = mp
-    tn, _ = K.top_state_nodes(fvol, top)
+    tn, real_top = K.top_state_nodes(fvol, top)
     nodes += tn
+    if FIRST[first] == 'uid-dir-left-by-an-earlier-run' and real_top is not None:
+        # $topdir/.Trash/$uid/{files,info} exist already (an earlier run made them when .Trash was still acceptable)
+        nodes += [W.d(real_top + '/%d' % UIDS[uid], 0o700), W.d(real_top + '/%d/files' % UIDS[uid], 0o700), W.d(real_top + '/%d/info' % UIDS[uid], 0o700)]
     a = ALT[alt]
     altp = fvol.rstrip('/') + '/.Trash-%d' % UIDS[uid]
     if a == 'dir':
@@ -232,13 +235,13 @@ def _case(where, top, alt, hk, uid, tdo, fb, first=0):
             where_now = [p for p, v in W.flatten(after).items() if v[0] == 'l' and v[1] == payload[1]
                          and (p == fdir + '/x' or '/files/' in p)]
         if want is None:
-            if where_now != [fdir + '/x'] or (r['exit'] == 0 and not first):
+            if where_now != [fdir + '/x'] or (r['exit'] == 0 and first in (0, 3)):
                 return rt.fail('C07:should-fail:' + label, 'no prescribed directory is usable, yet exit=%r and the entry is at %r' % (r['exit'], where_now))
             return rt.ok()
         fac = commands.install_model_backend()
         fac.set_world(m, env, UIDS[uid])
         real_want = fac.path.realpath(want)
-        if len(where_now) != 1 or not where_now[0].startswith(real_want + '/files/') or (r['exit'] != 0 and not first):
+        if len(where_now) != 1 or not where_now[0].startswith(real_want + '/files/') or (r['exit'] != 0 and first in (0, 3)):
             got_dirs = [p.rsplit('/files/', 1)[0] for p in where_now if '/files/' in p]
             return rt.fail('C07:wrong-dir:%s:alt=%s:tdopt=%s' % (label, ALT[alt], TDOPT[tdo]),
                            'the spec prescribes %s (-> %s); entry is at %r, exit %r, stderr %r' % (want, real_want, where_now, r['exit'], r['err'][-300:]))
@@ -272,6 +275,15 @@ def w_second(where: int, top: int, alt: int, hk: int, first: int) -> str:
     post: _ == ''
     """
     return _case(rt.sel(where, 8), rt.of([0, 1, 2], top), rt.sel(alt, 5), rt.sel(hk, 7), 0, 0, 0, rt.sel(first, 3))
+
+
+def w_left(where: int, top: int, alt: int, hk: int) -> str:
+    """
+    pre: PARTITION is None or where == PARTITION
+    pre: 0 <= where < 8 and 0 <= top < 9 and 0 <= alt < 5 and 0 <= hk < 7
+    post: _ == ''
+    """
+    return _case(rt.sel(where, 8), rt.sel(top, 9), rt.sel(alt, 5), rt.sel(hk, 7), 0, 0, 0, 3)
 
 
 def w_opts(where: int, top: int, alt: int, hk: int, tdo: int, fb: int) -> str:
@@ -356,6 +368,9 @@ def obligations(tier):
     obs.append(CH('W_second_argument_independent_of_the_first', MOD, 'w_second', timeout=1200, partitions=list(range(8)), engine='W', regime='selector',
                   encodes=K.PUT_FUNCS, stubs=K.STUBS,
                   bounds='one invocation with two arguments: a file of the home volume or of another volume first, then the entry; 8 locations x 3 .Trash states x 5 .Trash-uid states x 7 home variants x 2 first arguments'))
+    obs.append(CH('W_uid_dir_left_by_an_earlier_run', MOD, 'w_left', timeout=1200, partitions=list(range(8)), engine='W', regime='selector',
+                  encodes=K.PUT_FUNCS, stubs=K.STUBS,
+                  bounds='$topdir/.Trash/$uid/{files,info} exist already (made when .Trash was still acceptable): 8 locations x all 9 .Trash states x 5 .Trash-uid states x 7 home variants'))
     cparts = [(k, p) for k in ((0, 2) if tier == 'quick' else range(5)) for p in range(2)]
     obs.append(CH('W_two_runs_race_for_a_new_trash_dir', MOD, 'w_conc', timeout=1800, partitions=cparts, engine='W', regime='selector',
                   encodes=K.PUT_FUNCS + ['vf.sched replay-stepping'], stubs=K.STUBS,
